@@ -902,6 +902,7 @@ package sarama
 //@     |   && ps.msgs[msg.Topic][msg.Partition].recordsToSend.RecordBatch.ProducerID == ps.producerID
 //@     |   && ps.msgs[msg.Topic][msg.Partition].recordsToSend.RecordBatch.ProducerEpoch == ps.producerEpoch
 //@   ensures[in_sequence] err == nil && verAtLeast(ps.parent.conf.Version, V0_11_0_0) && ps.parent.conf.Producer.Idempotent ==> msg.sequenceNumber >= ps.msgs[msg.Topic][msg.Partition].recordsToSend.RecordBatch.FirstSequence
+//@   ensures[bytes_cover_key_and_value @C16] err == nil ==> ps.bufferBytes - old(ps.bufferBytes) >= ite(msg.Key != nil, len(encodedOf(msg.Key)), 0) + ite(msg.Value != nil, len(encodedOf(msg.Value)), 0)
 //@   ensures[unchanged_on_error] err != nil ==> ps.bufferCount == old(ps.bufferCount) && ps.bufferBytes == old(ps.bufferBytes)
 
 // buildRequest: the request version follows the configured Kafka version (zstd needs produce v7, which brokers
@@ -965,7 +966,7 @@ package sarama
 //@   ensures[dirty_rule] pom.dirty == (acq(pom.dirty) && !(acq(pom.offset) == offset && acq(pom.metadata) == metadata))
 //@   modifies pom.offset, pom.metadata, pom.dirty, pom.done
 
-//@ func (pom *partitionOffsetManager) NextOffset() props C06
+//@ func (pom *partitionOffsetManager) NextOffset() props C06 C07
 //@   returns o, m
 //@   ensures[stored] acq(pom.offset) >= 0 ==> o == acq(pom.offset) && m == acq(pom.metadata)
 //@   ensures[initial] acq(pom.offset) < 0 ==> o == pom.parent.conf.Consumer.Offsets.Initial && len(m) == 0
